@@ -31,12 +31,48 @@
 #else
 #define PG_RANGE(x) (1)
 #define PG_PRE(c, msg) ((void)0)
-/* logic-only jobs do not link stubs/mem_stubs.c: the libc block operations carry no obligation
- * there and only make an accessible destination arbitrary */
-void *memcpy(void *d, const void *s, size_t n) { (void)s; if (n != 0 && __CPROVER_w_ok(d, n)) __CPROVER_havoc_slice(d, n); return d; }
-void *memmove(void *d, const void *s, size_t n) { (void)s; if (n != 0 && __CPROVER_w_ok(d, n)) __CPROVER_havoc_slice(d, n); return d; }
-void *memset(void *d, int c, size_t n) { (void)c; if (n != 0 && __CPROVER_w_ok(d, n)) __CPROVER_havoc_slice(d, n); return d; }
 #endif
+/* libc block operations, same contracts as stubs/mem_stubs.c (ranges accessible, destination becomes
+ * arbitrary) except that the destination is only havocked when it is accessible: havoc_slice through
+ * a NULL/dangling pointer (which these jobs do reach) makes cbmc's --json-ui output explode.
+ * With PG_RANGES=0 the accessibility obligation is dropped (logic-only jobs).
+ * PG_MEM_NOCONTENT: the written bytes are not modelled at all (left as they were, i.e. arbitrary for
+ * a fresh heap block).  Only for jobs in which neither the code under proof nor the harness reads
+ * those bytes back (the page LOAD functions: level buffers / dictionary copies are filled and handed
+ * on); needed because cbmc --json-ui builds a trace per failing obligation and runs out of memory
+ * on the 2^32-byte nondet array havoc_slice introduces. */
+#ifdef PG_MEM_NOCONTENT
+#define PG_HAVOC(d, n) ((void)0)
+#else
+static void pg_havoc(void *d, size_t n) { if (n != 0 && __CPROVER_w_ok(d, n)) __CPROVER_havoc_slice(d, n); }
+#define PG_HAVOC(d, n) pg_havoc((d), (n))
+#endif
+void *memcpy(void *d, const void *s, size_t n) {
+  PG_PRE(__CPROVER_r_ok(s, n), "memcpy src readable");
+  PG_PRE(__CPROVER_w_ok(d, n), "memcpy dst writable");
+#ifdef PG_MEMCPY_SMALL
+  /* 4- and 8-byte copies (core/endian.h readers) keep their contents */
+  if (n == 4 && __CPROVER_r_ok(s, n) && __CPROVER_w_ok(d, n)) {
+    ((uint8_t *)d)[0] = ((const uint8_t *)s)[0]; ((uint8_t *)d)[1] = ((const uint8_t *)s)[1];
+    ((uint8_t *)d)[2] = ((const uint8_t *)s)[2]; ((uint8_t *)d)[3] = ((const uint8_t *)s)[3];
+    return d;
+  }
+#endif
+  PG_HAVOC(d, n);
+  return d;
+}
+void *memmove(void *d, const void *s, size_t n) {
+  PG_PRE(__CPROVER_r_ok(s, n), "memmove src readable");
+  PG_PRE(__CPROVER_w_ok(d, n), "memmove dst writable");
+  PG_HAVOC(d, n);
+  return d;
+}
+void *memset(void *d, int c, size_t n) {
+  (void)c;
+  PG_PRE(__CPROVER_w_ok(d, n), "memset dst writable");
+  PG_HAVOC(d, n);
+  return d;
+}
 
 /* bytes one decoded value of a physical type occupies in a caller-supplied values buffer */
 #define PG_VALUE_SIZE(t, tl) \
@@ -46,6 +82,16 @@ void *memset(void *d, int c, size_t n) { (void)c; if (n != 0 && __CPROVER_w_ok(d
    (t) == CARQUET_PHYSICAL_INT96 ? (size_t)12 : \
    (t) == CARQUET_PHYSICAL_BYTE_ARRAY ? sizeof(carquet_byte_array_t) : \
    (t) == CARQUET_PHYSICAL_FIXED_LEN_BYTE_ARRAY ? (size_t)(tl) : (size_t)0)
+
+/* little-endian 32-bit value at p (specification side) */
+#define PG_LE32(p) ((uint32_t)(p)[0] | ((uint32_t)(p)[1] << 8) | ((uint32_t)(p)[2] << 16) | ((uint32_t)(p)[3] << 24))
+/* bytes per dictionary entry the data-page decoder reads for an index (0: type never looked up) */
+#define PG_DICT_VS(t, tl) \
+  (((t) == CARQUET_PHYSICAL_INT32 || (t) == CARQUET_PHYSICAL_FLOAT) ? (size_t)4 : \
+   ((t) == CARQUET_PHYSICAL_INT64 || (t) == CARQUET_PHYSICAL_DOUBLE) ? (size_t)8 : \
+   (t) == CARQUET_PHYSICAL_INT96 ? (size_t)12 : \
+   (t) == CARQUET_PHYSICAL_FIXED_LEN_BYTE_ARRAY ? (size_t)(tl) : (size_t)0)
+size_t cqv_k;                      /* arbitrary ghost index, used instead of a quantifier */
 
 /* ---- ghost state ------------------------------------------------------------------------ */
 int g_parse_calls;                 /* parquet_parse_page_header calls so far                     */
